@@ -5,7 +5,7 @@
      nil    the constructed iterator is nil                                   (I layer from here on)
      cc     user-function calls made while constructing
      steps  the documented loop: [v = Value(), ok = Next(), vc / nc = calls made by each]
-     post   <<Value(), Next()>> of the exhausted iterator
+     post   <<Value()>> of the exhausted iterator (or <<"panic">>)
    and, once, the function tables on a small domain so that the Go harness can check that its tables are the same. *)
 EXTENDS Iter, Json, Randomization
 CONSTANTS Shape, Width,
